@@ -37,6 +37,12 @@ structure SNode where
   fs : Option FS := none
   monInit : Option (List Obj) := none
   monLog : List (Ev Obj) := []
+  /-- a consumer that does not read (a monitor whose handler does not return) -/
+  stalled : Bool := false
+  /-- monitor: a callback is in progress and blocked -/
+  busy : Bool := false
+  /-- monitor: every event ever handed to it (ghost) -/
+  monAll : List (Ev Obj) := []
 
 structure Sys where
   nodes : List SNode := []
@@ -105,7 +111,12 @@ def publish : Nat → Sys → Nat → List (Ev Obj) → Sys
         if c == 0 || n.parent != p || n.closed then s else
         if n.kind == "sub" then s.setNode c { n with q := offerAll evCap n.q evs }
         else if n.kind == "mon" then
-          (if n.monInit.isSome then s.setNode c { n with monLog := n.monLog ++ evs } else s)
+          (if n.monInit.isNone then s
+           else if !n.stalled then s.setNode c { n with monLog := n.monLog ++ evs, monAll := n.monAll ++ evs }
+           else s.setNode c (evs.foldl (fun (n : SNode) e =>
+             let n := { n with monAll := n.monAll ++ [e] }
+             if !n.busy then { n with monLog := n.monLog ++ [e], busy := true }
+             else { n with q := offer evCap n.q e }) n))
         else if n.kind == "clone" then publish fuel s c evs
         else match n.fs with
           | none => s
@@ -182,6 +193,8 @@ inductive SAct
   | refilter (id : Nat) (f : Filter)
   | close (id : Nat)
   | closeRoot
+  | stall (id : Nat)
+  | unstall (id : Nat)
 
 def descendantOf : Nat → Sys → Nat → Nat → Bool
   | 0, _, _, _ => false
@@ -232,6 +245,16 @@ def Sys.act (s : Sys) : SAct → Sys
     { s with nodes := s.nodes.mapIdx (fun i n => if i != 0 && descendantOf s.fuel s id i then { n with closed := true } else n) }
   | .closeRoot =>
     { s with rootClosed := true, nodes := s.nodes.map (fun n => { n with closed := true }) }
+  | .stall id =>
+    match s.node id with
+    | some n => s.setNode id { n with stalled := true }
+    | none => s
+  | .unstall id =>
+    match s.node id with
+    | some n =>
+      if n.kind == "mon" then s.setNode id { n with stalled := false, busy := false, monLog := n.monLog ++ n.q, q := [] }
+      else s.setNode id { n with stalled := false }
+    | none => s
 
 /-! observations -/
 
@@ -247,7 +270,7 @@ def Sys.doneOf (s : Sys) (i : Nat) : Bool :=
   if i == 0 then s.rootClosed else
   match s.node i with
   | none => false
-  | some n => n.closed
+  | some n => n.closed && !(n.kind == "mon" && n.busy)
 
 /-- `Cache().List()` of node `i`; `none` = ErrNotRunning -/
 def Sys.cacheOf (s : Sys) (i : Nat) : Option (List Obj) :=
